@@ -333,8 +333,13 @@ def handle (stream : String) (args : List String) : String :=
     let locals := (cs.filter (·.1)).map (·.2)
     let remotes := (cs.filter (fun c => !c.1)).map (·.2)
     let r : IcePrio.Role := if role = "controlling" then .controlling else .controlled
-    let order := IcePairs.checkOrder r (prefer = "1") locals remotes
-    if order.isEmpty then "-" else ";".intercalate (order.map (fun p => s!"{p.1.id}>{p.2.id}"))
+    -- `prefer` = `<0|1>` or `<0|1>,<state is Checking 0|1>,<a pair is already selected 0|1>`
+    let (pf, checking, hasSel) : Bool × Bool × Bool := match fields prefer with
+      | [p, c, h] => (decide (p = "1"), decide (c = "1"), decide (h = "1"))
+      | _ => (decide (prefer = "1"), true, false)
+    match IcePairs.checkPass checking hasSel r pf locals remotes with
+    | none => "-"
+    | some order => if order.isEmpty then "-" else ";".intercalate (order.map (fun p => s!"{p.1.id}>{p.2.id}"))
   | "select", role :: pn :: items =>
     -- items: `S|N,lid,lprio,ltcp,rid,rprio` — successful checks (S) / successful nominations (N) in arrival order
     let parseP (t : String) : Option (Bool × IcePairs.PPair) :=
